@@ -496,10 +496,15 @@ class ModuleInliner:
         # spliced statements take the position of the call (file:line in a report is then the call site, and rules
         # that order statements by position see them where they are executed); columns keep their relative order
         k = [getattr(call, "col_offset", 0)]
+        base_line = getattr(call, "lineno", 0)
+        j = [0]
 
         def place(n):
             if hasattr(n, "lineno") or isinstance(n, (ast.stmt, ast.expr)):
-                n.lineno = n.end_lineno = getattr(call, "lineno", 0)
+                # line = the call's line plus a fraction that grows in execution order: rules that order statements
+                # by line still see the spliced statements in sequence, a report prints the call's line (%d)
+                j[0] += 1
+                n.lineno = n.end_lineno = base_line + min(j[0], 9999) * 1e-4 if j[0] > 1 else base_line
                 n.col_offset = n.end_col_offset = k[0]
                 k[0] += 1
             for c in ast.iter_child_nodes(n):
@@ -608,6 +613,13 @@ class ModuleInliner:
                 new = ast.copy_location(ast.Name(res, ast.Load()), c)
                 _replace_node(s, c, new)
                 self.inlined.append(h.node.name)
+        if prelude:
+            # the statement itself runs after what was hoisted out of it
+            last = max((getattr(n_, "lineno", 0) for p_ in prelude for n_ in ast.walk(p_) if hasattr(n_, "lineno")), default=getattr(s, "lineno", 0))
+            if last >= getattr(s, "lineno", 0):
+                for n_ in ast.walk(s):
+                    if hasattr(n_, "lineno") and n_.lineno <= last:
+                        n_.lineno = n_.end_lineno = last + 1e-5
         return prelude + [s]
 
     def run(self) -> bool:
